@@ -1,6 +1,6 @@
 """C06 — invocation counters: a fresh nonce per protected send, replays refused."""
 import lib
-from lib import E
+from lib import E, guarded
 from props import conn_common as cc
 
 RULE = ("random histories of protected sends (AARQ, RLRQ, GET, SET, ACTION), HLS replies and receives, 10..60 operations (thorough: "
@@ -98,7 +98,35 @@ def rlre_ciphered(peer):
     return acse.ReleaseResponse(en.ReleaseResponseReason.NORMAL, acse.UserInformation(xdlms.GlobalCipherInitiateResponse(peer.sc(), ic, ct))).to_bytes()
 
 
+def resend_search(ctx):
+    """the same request OBJECT handed to send() twice (a retried AARQ, a re-used RLRQ): every protected send carries the
+    client's current counter, which then advances - nothing ciphered for an earlier send goes out again"""
+    from props import C02
+    for suite in (0, 1, 2):
+        ek, ak = cc.keys(suite)
+        for kind, state, msg in (("aarq", 0, cc.aarq_v(cc.CONF_C, 65535, cc.CLIENT_TITLE, 5, cc.CHALLENGE_C, True)), ("rlrq", 2, cc.rlrq_v(cc.CONF_C, 1200))):
+            conn = cc.make_conn(cc.cfg(ek=ek, ak=ak, suite=suite), cc.cst(state=state, cic=1000 + suite, mic=5, mtitle=cc.METER_TITLE, auth=5, mchallenge=cc.CHALLENGE_M))
+            obj = cc.build_msg(msg)
+            seen = []
+            for attempt in range(3):
+                conn.state.current_state = cc.sentinels()[state]                  # the earlier attempt was rejected / released: same state again
+                before = conn.client_invocation_counter
+                o = guarded(lambda: conn.send(obj))
+                ctx.tried("same_object_sent_again", key=(suite, kind, attempt))
+                if not o.ok:
+                    break
+                back = C02.impl(f"{kind}_from_bytes", bytes(o.value))
+                user = back[0] if kind == "aarq" else back[1]
+                carried = user[2] if isinstance(user, list) and user and user[0] == 18 else None
+                case = {"resend": True, "suite": suite, "kind": kind, "attempt": attempt}
+                if carried != before or conn.client_invocation_counter != before + 1 or carried in seen:
+                    ctx.fail("resent_object_carries_stale_counter", case, f"counter {before}, then {before + 1}", f"carried {carried}, connection now at {conn.client_invocation_counter}, earlier {seen}")
+                    break
+                seen.append(carried)
+
+
 def run(ctx):
+    resend_search(ctx)
     r = lib.rng("C06")
     hs = []
     for i in range(ctx.scale(60, 160)):
@@ -200,6 +228,10 @@ def received_counter(b):
 
 
 def replay(ctx, rp):
+    if rp["case"].get("resend"):
+        ctx.failures_before = len(ctx.failures) if hasattr(ctx, "failures") else 0
+        resend_search(ctx)
+        return bool(ctx.failures)
     s = lib.v_parse(rp["case"]["script"])
     k, c, ops = s
     with Recorder() as rec:
